@@ -1,6 +1,10 @@
 (* Proofs/SelectBase.v — infrastructure for the selectors of Model/Select.v:
    children precede parents in the library layout, root-to-terminal paths as decision lists, the decision
-   trace of a root walk, the walk as a fold over its trace, vector/clause recording, lexicographic order. *)
+   trace of a root walk, the walk as a fold over its trace, vector/clause recording, lexicographic order.
+   The selectors never use reducedness as such, only: no decision node with two zero links (`nz`), children stored
+   before parents (`topo`), every decision node reachable from the last one (`all_reachable`).  These make up
+   `Benign b` (valid non-reduced diagrams of the library's storage habits; `canonical_benign : Canonical b -> Benign b`);
+   all lemmas of Proofs/Select*.v are proved for Benign and the Canonical statements are corollaries. *)
 From Coq Require Import List PeanoNat NArith Lia Bool.
 Import ListNotations.
 From BddVerif Require Import Model.Bdd Model.Apply Model.Ops Model.Select Proofs.Sem Proofs.Canon Proofs.Reflect
@@ -25,11 +29,24 @@ Proof.
     intros i Hi Hlt. destruct (N.eq_dec i l2) as [->|Hne]; [lia|]. apply K2; lia.
 Qed.
 
-Lemma kids_lt b : Canonical b -> forall p, 2 <= p -> p < size b -> nlow (get b p) < p /\ nhigh (get b p) < p.
+(* the storage order used by the bottom-up folds and by sat_witness' scan: children before parents
+   (the same notion as `topo` of Proofs/ExprEval.v, which comes later in the build order) *)
+Definition topo (b : bdd) : Prop := kids_before b (size b).
+
+(* no decision node has two zero links: the only structural consequence of `reduced` the selectors rely on *)
+Definition nz (b : bdd) : Prop := forall p, 2 <= p -> p < size b -> ~ (nlow (get b p) = 0 /\ nhigh (get b p) = 0).
+
+Lemma canonical_topo b : Canonical b -> topo b.
 Proof.
   intros (Wb & Rb & [L|L]) p Hp Hlt; [lia|].
   refine (chk_kids _ _ _ _ _ L _ p Hp Hlt). intros i Hi Hi2. lia.
 Qed.
+
+Lemma reduced_nz b : reduced b -> nz b.
+Proof. intros (R & _) p Hp Hlt (A & B). apply (R p Hp Hlt). congruence. Qed.
+
+Lemma kids_lt b : topo b -> forall p, 2 <= p -> p < size b -> nlow (get b p) < p /\ nhigh (get b p) < p.
+Proof. intros T p Hp Hlt. exact (T p Hp Hlt). Qed.
 
 (* ======================================================================================== *)
 (* basic facts                                                                               *)
@@ -51,9 +68,9 @@ Proof. intros W H. pose proof (size_pos b W). unfold is_false in H. apply N.eqb_
 Lemma root_nonzero b : wf b -> is_false b = false -> root b <> 0.
 Proof. intros W H. pose proof (is_false_false_size b W H). unfold root. lia. Qed.
 
-(* a reduced decision node has at most one zero child *)
-Lemma kids_not_both_zero b p : reduced b -> 2 <= p -> p < size b -> ~ (nlow (get b p) = 0 /\ nhigh (get b p) = 0).
-Proof. intros (R & _) Hp Hlt (A & B). apply (R p Hp Hlt). congruence. Qed.
+(* a decision node of an `nz` (in particular: reduced) diagram has at most one zero child *)
+Lemma kids_not_both_zero b p : nz b -> 2 <= p -> p < size b -> ~ (nlow (get b p) = 0 /\ nhigh (get b p) = 0).
+Proof. intros R Hp Hlt. exact (R p Hp Hlt). Qed.
 
 Lemma child_valid b p c : wf b -> 2 <= p -> p < size b -> valid b (child b p c) /\ var_of b p < var_of b (child b p c).
 Proof.
@@ -164,20 +181,21 @@ Proof.
 Qed.
 
 (* the low-zero choice (first_valuation, first_clause) and the not-high-zero choice (last valuation and clause) are safe *)
-Lemma safe_low_zero b : reduced b -> safe_choice b (low_zero b).
+Lemma safe_low_zero b : nz b -> safe_choice b (low_zero b).
 Proof.
   intros R q Hq Hlt. unfold child, low_zero. destruct (N.eqb_spec (nlow (get b q)) 0) as [E|E]; [|exact E].
   intros E'. apply (kids_not_both_zero b q R Hq Hlt). split; assumption.
 Qed.
 
-Lemma safe_not_high_zero b : reduced b -> safe_choice b (fun p => negb (high_zero b p)).
+Lemma safe_not_high_zero b : nz b -> safe_choice b (fun p => negb (high_zero b p)).
 Proof.
   intros R q Hq Hlt. unfold child, high_zero. destruct (N.eqb_spec (nhigh (get b q)) 0) as [E|E]; cbn [negb]; [|exact E].
   intros E'. apply (kids_not_both_zero b q R Hq Hlt). split; assumption.
 Qed.
 
-(* key fact: in a reduced valid diagram every pointer other than 0 reaches 1, hence is satisfiable *)
-Theorem nonzero_path b p : wf b -> reduced b -> valid b p -> p <> 0 -> exists ds, path b p ds 1.
+(* key fact: in a valid diagram without doubly-zero nodes (in particular: a reduced one) every pointer other than 0
+   reaches 1, hence is satisfiable *)
+Theorem nonzero_path b p : wf b -> nz b -> valid b p -> p <> 0 -> exists ds, path b p ds 1.
 Proof.
   intros W R V Hp. exists (trace (wfuel b) b (low_zero b) p).
   apply trace_path; try assumption; [apply safe_low_zero; exact R|].
@@ -214,11 +232,113 @@ Qed.
 Lemma tval_follows ds d : NoDup (map fst ds) -> follows (tval ds d) ds.
 Proof. intros N x c H. unfold tval. now rewrite (lookup_in ds x c N H). Qed.
 
-Theorem nonzero_sat b p : wf b -> reduced b -> valid b p -> p <> 0 -> exists v, sem b p v = true.
+Theorem nonzero_sat_benign b p : wf b -> nz b -> valid b p -> p <> 0 -> exists v, sem b p v = true.
 Proof.
   intros W R V Hp. destruct (nonzero_path b p W R V Hp) as (ds & P).
   destruct (path_vars b W ds p 1 V P) as (_ & _ & _ & N).
   exists (tval ds false). rewrite (path_sem b W ds p 1 _ P (tval_follows ds false N)). reflexivity.
+Qed.
+
+Theorem nonzero_sat b p : wf b -> reduced b -> valid b p -> p <> 0 -> exists v, sem b p v = true.
+Proof. intros W R. apply nonzero_sat_benign; [exact W|apply reduced_nz; exact R]. Qed.
+
+(* ======================================================================================== *)
+(* the benign shape: valid, no doubly-zero node, children stored before parents, root last and every node
+   reachable from it.  Redundant tests (nlow = nhigh <> 0) and duplicated nodes are allowed.                *)
+Definition is_parent (G : bdd) (j i : N) : Prop := nlow (get G j) = i \/ nhigh (get G j) = i.
+
+Definition all_reachable (b : bdd) : Prop := forall p, 2 <= p -> p < size b -> exists ds, path b (root b) ds p.
+
+Definition Benign (b : bdd) : Prop := wf b /\ nz b /\ topo b /\ all_reachable b.
+
+Lemma path_app b : forall ds1 a m ds2 t, path b a ds1 m -> path b m ds2 t -> path b a (ds1 ++ ds2) t.
+Proof.
+  induction ds1 as [|xc ds1 IH]; intros a m ds2 t P1 P2; cbn [path app] in *.
+  - subst. exact P2.
+  - destruct P1 as (A & B & D & P1). repeat split; try assumption. apply (IH _ m); assumption.
+Qed.
+
+Lemma parent_child b j p : is_parent b j p -> exists c, child b j c = p.
+Proof. intros [H|H]; [exists false|exists true]; exact H. Qed.
+
+(* the last edge of a non-empty path *)
+Lemma path_last_parent b t : forall ds p, path b p ds t -> p <> t ->
+  exists j, 2 <= j /\ j < size b /\ is_parent b j t.
+Proof.
+  induction ds as [|[x c] ds IH]; intros p P Hp; cbn [path fst snd] in P; [congruence|].
+  destruct P as (H2 & Hlt & _ & P).
+  destruct (N.eq_dec (child b p c) t) as [E|E].
+  - exists p. split; [exact H2|]. split; [exact Hlt|]. unfold is_parent, child in *. destruct c; [right|left]; exact E.
+  - apply (IH _ P E).
+Qed.
+
+(* the library's DFS post-order layout stores, after every node other than the root, one of its parents *)
+Lemma chk_parents fuel G : forall lim p l, chk fuel G lim p = Some l ->
+  forall i, lim <= i -> i < l -> i = p \/ exists j, i < j /\ j < l /\ is_parent G j i.
+Proof.
+  induction fuel as [|f IH]; intros lim p l H i Hi Hl; [discriminate|]. cbn in H.
+  destruct (N.ltb_spec p lim).
+  - inversion H; subst. lia.
+  - destruct (chk f G lim (nhigh (get G p))) as [l1|] eqn:E1; [|discriminate].
+    destruct (chk f G l1 (nlow (get G p))) as [l2|] eqn:E2; [|discriminate].
+    destruct (N.eqb_spec p l2); [|discriminate]. inversion H; subst.
+    pose proof (chk_lt _ _ _ _ _ E1) as (A1 & A2). pose proof (chk_lt _ _ _ _ _ E2) as (B1 & B2).
+    destruct (N.eq_dec i l2) as [->|Hne]; [now left|]. right.
+    destruct (N.lt_ge_cases i l1) as [Hi1|Hi1].
+    + destruct (IH _ _ _ E1 i Hi Hi1) as [->|(j & J1 & J2 & J3)].
+      * exists l2. split; [lia|]. split; [lia|]. right. reflexivity.
+      * exists j. split; [lia|]. split; [lia|exact J3].
+    + destruct (IH _ _ _ E2 i Hi1 ltac:(lia)) as [->|(j & J1 & J2 & J3)].
+      * exists l2. split; [lia|]. split; [lia|]. left. reflexivity.
+      * exists j. split; [lia|]. split; [lia|exact J3].
+Qed.
+
+(* a node that has a later parent whenever it is not the root is reachable from the root *)
+Lemma parents_reachable b : (forall q, 2 <= q -> q < root b -> exists j, q < j /\ j < size b /\ is_parent b j q) ->
+  all_reachable b.
+Proof.
+  intros HP. assert (H : forall k p, 2 <= p -> p < size b -> (N.to_nat (size b - p) <= k)%nat -> exists ds, path b (root b) ds p).
+  { induction k as [|k IH]; intros p Hp Hlt Hk; [lia|].
+    destruct (N.eq_dec p (root b)) as [->|Hne]; [exists []; reflexivity|].
+    destruct (HP p Hp ltac:(unfold root in *; lia)) as (j & J2 & J3 & J4).
+    destruct (IH j ltac:(lia) J3 ltac:(lia)) as (ds & P). destruct (parent_child b j p J4) as (c & Hc).
+    exists (ds ++ [(var_of b j, c)]). apply (path_app b ds _ j); [exact P|].
+    cbn [path fst snd]. repeat split; try assumption; lia. }
+  intros p Hp Hlt. apply (H _ p Hp Hlt (Nat.le_refl _)).
+Qed.
+
+Theorem canonical_benign b : Canonical b -> Benign b.
+Proof.
+  intros C. pose proof C as (W & R & L). split; [exact W|]. split; [apply reduced_nz; exact R|].
+  split; [apply canonical_topo; exact C|]. apply parents_reachable. intros q Hq Hr. unfold root in Hr.
+  destruct L as [L|L]; [lia|].
+  destruct (chk_parents _ _ _ _ _ L q ltac:(lia) ltac:(lia)) as [->|(j & J1 & J2 & J3)]; [lia|].
+  exists j. repeat split; assumption.
+Qed.
+
+(* in a benign diagram every node other than the root (the 1 terminal included) has a parent stored after it *)
+Lemma has_parent b q : Benign b -> 1 <= q -> q < root b ->
+  exists j, 2 <= j /\ q < j /\ j < size b /\ is_parent b j q.
+Proof.
+  intros (W & R & T & RA) Hq Hr. unfold root in Hr.
+  assert (HP : exists ds, path b (root b) ds q).
+  { destruct (N.eq_dec q 1) as [->|Hq1].
+    - assert (Hf : is_false b = false) by (unfold is_false; apply N.eqb_neq; lia).
+      exact (nonzero_path b (root b) W R (valid_root b W) (root_nonzero b W Hf)).
+    - apply RA; lia. }
+  destruct HP as (ds & P).
+  destruct (path_last_parent b q ds (root b) P) as (j & J1 & J2 & J3); [unfold root; lia|].
+  exists j. split; [exact J1|]. split; [|split; assumption].
+  destruct (T j J1 J2) as (Kl & Kh). destruct J3 as [E|E]; rewrite <- E; assumption.
+Qed.
+
+(* the benign shape is wf plus: either a constant, or at least one decision node *)
+Lemma benign_shape b : Benign b -> b = mk_false (nvars b) \/ b = mk_true (nvars b) \/ 3 <= size b.
+Proof.
+  intros ((Hs & H0 & H1 & _) & _).
+  destruct b as [|n0 [|n1 [|n2 r]]]; unfold size in *; cbn [length] in *; [lia| | |right; right; lia].
+  - left. unfold mk_false. f_equal. exact H0.
+  - right. left. unfold mk_true. specialize (H1 ltac:(lia)). f_equal; [exact H0|f_equal; exact H1].
 Qed.
 
 (* ======================================================================================== *)
